@@ -136,6 +136,7 @@ fn main() {
         Some("cons") => {
             // C11 sweep: every line is {"sd","ed","dv":[[d, verdict]...]} emitted by MC_ConsAll; the constructor is called at every d
             // through several (std offset, dst offset, end time) splits; start time = d + std - dst + end (input assembly, no verdict here)
+            const ANCHORS: [(i64, i64, i64); 6] = [(0, 0, 0), (0, 3600, 0), (-18000, -14400, 0), (0, 3600, 7200), (-18000, -14400, 7200), (3600, 0, 0)];
             let splits: [(i64, i64, i64); 8] = [(0, 0, 0), (0, 3600, 7200), (-89999, 93599, 0), (93599, -89999, 604799), (3600, 0, -604799), (-18000, -14400, 90000), (-89999, 93599, -604799), (0, 0, 604799)];
             let inp = BufReader::new(std::fs::File::open(&args[2]).expect("cannot open input"));
             let mut out = BufWriter::new(std::fs::File::create(&args[3]).expect("cannot create output"));
@@ -151,9 +152,10 @@ fn main() {
                 for dv in v["dv"].as_array().expect("dv") {
                     let d = dv[0].as_i64().unwrap();
                     let verdict = dv[1].as_i64().unwrap();
-                    for (so, dof, et) in splits.iter() {
-                        let stt = d + so + et - dof;
-                        if stt.abs() >= 604800 {
+                    // ... and through rules whose START time is a round value (0 h, 2 h), the end time solved for
+                    let anchored = ANCHORS.iter().map(|(so, dof, stt)| (*so, *dof, stt - so + dof - d, *stt));
+                    for (so, dof, et, stt) in splits.iter().map(|(so, dof, et)| (*so, *dof, *et, d + so + et - dof)).chain(anchored) {
+                        if stt.abs() >= 604800 || et.abs() >= 604800 {
                             continue;
                         }
                         let a = serde_json::json!({
